@@ -46,7 +46,8 @@ func (v *vpReqVerifier) VerifyJSONs(ctx context.Context, reqs []gomatrixserverli
 func vp_C13_verify() {
 	pubB, privB := vpKey("origin-key")
 	method := vpChoice("method", "GET", "PUT")
-	uri := vpChoice("uri", "/_matrix/federation/v1/send/1", "/_matrix/key/v2/server?x=1")
+	uri := vpChoice("uri", "/_matrix/federation/v1/send/1", "/_matrix/key/v2/server?x=1", "/_matrix/federation/v1/publicRooms?",
+		"/_matrix/federation/v1/event/%24abc%2Fdef", "/_matrix/federation/v1/state/!r:x?event_id=$e&a=b%20c")
 	hasBody := method == "PUT"
 	fr := NewFederationRequest(method, "origin.example", "dest.example", uri)
 	if hasBody {
@@ -62,13 +63,20 @@ func vp_C13_verify() {
 		// a server always sees a non-nil body (http.NoBody); HTTPRequest built a client request
 		req.Body = io.NopCloser(bytes.NewReader(nil))
 	}
-	tamper := vpChoice("tamper", "none", "method", "uri", "body", "drop-auth", "content-type", "not-local", "key-invalid", "other-default-name")
+	tamper := vpChoice("tamper", "none", "method", "uri", "uri-add-question-mark", "uri-drop-query", "body", "drop-auth", "content-type", "not-local", "key-invalid", "other-default-name")
 	switch tamper {
 	case "method":
 		req.Method = "POST"
 	case "uri":
 		req.URL.Path = "/_matrix/federation/v1/send/2"
 		req.URL.RawPath = ""
+	case "uri-add-question-mark":
+		vpAssume(req.URL.RawQuery == "" && !req.URL.ForceQuery)
+		req.URL.ForceQuery = true
+	case "uri-drop-query":
+		vpAssume(req.URL.RawQuery != "" || req.URL.ForceQuery)
+		req.URL.RawQuery = ""
+		req.URL.ForceQuery = false
 	case "body":
 		if hasBody {
 			req.Body = io.NopCloser(bytes.NewReader([]byte(`{"k":"zz","extra":1}`)))
